@@ -205,6 +205,12 @@ def pad3 (n : Nat) : List Byte := [digit (n / 100), digit (n / 10), digit n]
 /-- `"%lu.%03d", time / 1000, time % 1000` -/
 def tsText (t : Nat) : List Byte := dec (t / 1000) ++ [46] ++ pad3 (t % 1000)
 
+/-- the number a reader gets from a string of decimal digits (exact, no floating point) -/
+def digitsVal (bs : List Byte) : Nat := bs.foldl (fun a c => a * 10 + (c - 48)) 0
+
+/-- every byte is one of '0'..'9' -/
+def allDigits (bs : List Byte) : Bool := bs.all fun c => decide (48 ≤ c) && decide (c ≤ 57)
+
 /-! ## the printers -/
 
 structure Task where
